@@ -787,23 +787,56 @@ Proof. intros P. unfold build_hist. rewrite (hist_density_perm xs ys _ P). refle
 Lemma np_minimum_self (a : F N) : np_minimum a a = a.
 Proof. unfold np_minimum. destruct (a <? a); reflexivity. Qed.
 
-Lemma inter_div_self (d : list (F N)) : inter_div d d = f1 - np_sum d.
+Lemma inter_div_self (d : list (F N)) : inter_div d d = pymax f0 (f1 - np_sum d).
 Proof.
-  unfold inter_div. f_equal. f_equal.
+  unfold inter_div. f_equal. f_equal. f_equal.
   induction d as [|a d IH]; simpl; [reflexivity|]. rewrite np_minimum_self, IH. reflexivity.
 Qed.
 
+(** the divergence is the float zero or strictly positive - never negative, never NaN (every instance, no law) *)
+Lemma inter_div_sign (dr dt : list (F N)) : inter_div dr dt = f0 \/ fltb f0 (inter_div dr dt) = true.
+Proof. unfold inter_div, pymax. destruct (fltb f0 _) eqn:E; [right; exact E | left; reflexivity]. Qed.
+
+Lemma inter_div_nonneg (L : OrdLaws N) (dr dt : list (F N)) : fleb f0 (inter_div dr dt) = true.
+Proof.
+  destruct (inter_div_sign dr dt) as [-> | H]; [apply (leb_refl N L)|].
+  rewrite (ltb_leb N L) in H. destruct (leb_total N L f0 (inter_div dr dt)) as [T|T]; [exact T|].
+  rewrite T in H. discriminate.
+Qed.
+
+Lemma list_max_in (l : list (F N)) : list_max l = f0 \/ In (list_max l) l.
+Proof.
+  destruct l as [|a t]; [left; reflexivity|]. right. unfold list_max.
+  assert (G : forall t m, fold_left (fun m y => if m <? y then y else m) t m = m \/
+                          In (fold_left (fun m y : F N => if m <? y then y else m) t m) t).
+  { induction t0 as [|b t0 IH]; intros m; simpl; [left; reflexivity|].
+    destruct (m <? b).
+    - destruct (IH b) as [-> | H]; [right; left; reflexivity | right; right; exact H].
+    - destruct (IH m) as [-> | H]; [left; reflexivity | right; right; exact H]. }
+  destruct (G t a) as [-> | H]; [left; reflexivity | right; exact H].
+Qed.
+
 (** ... hence: if every component's test scores are a permutation of its reference scores, every component
-    score is 1 - sum(normalised reference histogram) *)
+    score is max(0, 1 - sum(normalised reference histogram)) *)
 Lemma scores_equal_windows s tproj x : RefH s -> pc_inter p = true ->
   (forall i, In i (pcs_of (npcs_of p s)) -> Permutation (col i tproj) (col i (m_rproj p s))) ->
   fst (comp_scores p s tproj x) =
-  map (fun i => f1 - np_sum (snd (nth (Z.to_nat i) (m_dref p s) ([], [])))) (pcs_of (npcs_of p s)).
+  map (fun i => pymax f0 (f1 - np_sum (snd (nth (Z.to_nat i) (m_dref p s) ([], []))))) (pcs_of (npcs_of p s)).
 Proof.
   intros H Hi HP. rewrite comp_scores_inter by exact Hi.
   assert (E : hists p (npcs_of p s) tproj (m_lower p s) (m_upper p s) = m_dref p s).
   { rewrite (H Hi). unfold hists. apply map_ext_in. intros i Hin. apply build_hist_perm. apply HP. exact Hin. }
   rewrite E. apply map_ext. intros i. apply inter_div_self.
+Qed.
+
+(** the score handed to Page-Hinkley under the "intersection" metric is the float zero or strictly positive *)
+Lemma score_sign s x : pc_inter p = true -> score_of p s x = f0 \/ fltb f0 (score_of p s x) = true.
+Proof.
+  intros Hi. unfold score_of. rewrite comp_scores_inter by exact Hi.
+  destruct (list_max_in (map (fun i => inter_div (snd (nth (Z.to_nat i) (m_dref p s) ([], [])))
+      (snd (nth (Z.to_nat i) (hists p (npcs_of p s) (tproj_of p s x) (m_lower p s) (m_upper p s)) ([], []))))
+      (pcs_of (npcs_of p s)))) as [-> | H]; [left; reflexivity|].
+  apply in_map_iff in H as (i & <- & _). apply inter_div_sign.
 Qed.
 
 End Hist.
@@ -977,11 +1010,12 @@ Qed.
 Lemma inter_div_unit (d1 d2 : list R) : (forall v, In v d1 -> 0 <= v) -> (forall v, In v d2 -> 0 <= v) -> rsum d1 = 1 ->
   0 <= @inter_div NR d1 d2 <= 1.
 Proof.
-  intros H1 H2 S. unfold inter_div. rewrite np_sum_R. simpl. destruct (rsum_min_bounds d1 d2 H1 H2). change (F NR) with R in *. lra.
+  intros H1 H2 S. unfold inter_div, pymax. rewrite np_sum_R. simpl. destruct (rsum_min_bounds d1 d2 H1 H2). change (F NR) with R in *.
+  destruct (Rlt_dec 0 _); lra.
 Qed.
 
 Lemma inter_div_equal (d : list R) : rsum d = 1 -> @inter_div NR d d = 0.
-Proof. intros S. rewrite inter_div_self, np_sum_R. simpl. lra. Qed.
+Proof. intros S. rewrite inter_div_self, np_sum_R. unfold pymax. simpl. rewrite S. destruct (Rlt_dec 0 (1 - 1)); lra. Qed.
 
 (** ---- np.histogram on an interval [a, b], a < b, with k >= 1 equal bins ---- *)
 Lemma linspace_R (a b : R) (k : Z) : a < b -> (1 <= k)%Z ->
